@@ -80,6 +80,7 @@ pub fn op_rseq(a: &[&str]) -> String {
             let mut m = b.clone();
             for x in m[*off..*off + 32].iter_mut() { *x = 0xff; }
             if op_verify(&[&name, &hex(&m)]).starts_with('A') { return format!("variant-mismatch:seq-malformed-accepted:{}:{}:{}", i, w, k) }
+            if op_verify(&[&name, &hex(&m)]).starts_with('A') { return format!("variant-mismatch:seq-malformed-accepted-on-repeat:{}:{}:{}", i, w, k) }
             if !op_verify(&[&name, &h]).starts_with('A') { return format!("variant-mismatch:seq-verify-after-rejection:{}:{}:{}", i, w, k) }
         }
         built.push((name.clone(), h.clone()));
